@@ -470,7 +470,10 @@ class CircuitTemplate(AbstractBaseTemplate):
         # perform simulation via the graph representation
         #################################################
 
-        # create mapping between requested output variables and the current network variables
+        # create mapping between requested output variables and the current network variables.
+        # The positions used below are relative to each backend variable; absolute state-vector indices remembered
+        # from an earlier get_run_func / get_jacobian_func call on this template do not apply to this compilation.
+        net._state_var_indices = {}
         if type(outputs) is dict:
             output_map, outputs_ir = net.get_variable_positions(outputs)
         else:
